@@ -128,9 +128,16 @@ pub fn op_clone_tx<F: Fl>(slot: usize, from: usize, to: usize) {
     ledger::end_other(slot);
 }
 
+// Dropping a handle inside the concurrent phase moves it out of its world slot *bitwise* and leaves
+// the slot's bytes untouched.  Writing `None` there at a solver-chosen time would make every later
+// (infeasible, but syntactically present) use of the slot branch on a symbolic Option / enum-niche
+// byte, which multiplies the explored paths (measured: a 15-minute timeout became minutes).  A
+// scenario never touches a handle after dropping it, and worlds are `mem::forget`-ten at the end,
+// so the stale bytes are never dropped again; scenarios with an explicit teardown forget the slots
+// their programs dropped (see `scen_traffic::traffic`).
 pub fn op_drop_tx<F: Fl>(slot: usize, tx: usize) {
     ledger::begin(slot);
-    let t = unsafe { (*std::ptr::addr_of_mut!((*wp::<F>()).tx[tx])).take() };
+    let t: Option<F::Tx> = unsafe { std::ptr::read(std::ptr::addr_of!((*wp::<F>()).tx[tx])) };
     drop(t);
     ledger::end_other(slot);
 }
@@ -147,7 +154,7 @@ pub fn op_clone_rx<F: Fl>(slot: usize, from: usize, to: usize) {
 
 pub fn op_drop_rx<F: Fl>(slot: usize, rx: usize) {
     ledger::begin(slot);
-    let r = unsafe { (*std::ptr::addr_of_mut!((*wp::<F>()).rx[rx])).take() };
+    let r: Option<F::Rx> = unsafe { std::ptr::read(std::ptr::addr_of!((*wp::<F>()).rx[rx])) };
     drop(r);
     ledger::end_other(slot);
 }
@@ -155,7 +162,7 @@ pub fn op_drop_rx<F: Fl>(slot: usize, rx: usize) {
 /// returns what `unsubscribe` reported
 pub fn op_unsub_rx<F: Fl>(slot: usize, rx: usize) -> bool {
     ledger::begin(slot);
-    let r = unsafe { (*std::ptr::addr_of_mut!((*wp::<F>()).rx[rx])).take() };
+    let r: Option<F::Rx> = unsafe { std::ptr::read(std::ptr::addr_of!((*wp::<F>()).rx[rx])) };
     let b = F::unsubscribe_rx(r.unwrap());
     ledger::end_other(slot);
     b
